@@ -14,6 +14,7 @@ def run(ctx, b, broken):
     n = 1500 if ctx.tier == "quick" else 20000
     for i in range(n):
         g = cgen.Gen(ctx.rng)
+        g.switch_pragmas = True
         tk = cgen.Toks()
         depth = ctx.rng.randint(1, 3)
         body = ("compound", [g.block_item(depth) for _ in range(ctx.rng.randint(1, 4))])
